@@ -119,3 +119,37 @@ package fsm
 //@   trusted
 //@   requires recv: s != nil
 //@   modifies H_fsm_State_Transitions, H_fsm_State_Terminal
+
+// --- shortcut elimination (C03, C01-O4): one round of simplifySelf either expands the first shortcut of s or reports that
+// s has none left; simplify returns only when its state has none. (That the rounds end, and that *every* reachable
+// state is visited, is not under contract: bounded stand-in O4 and witnesses D2/D4.)
+//@ pure func linksWF(TR array[*State]StateTransitions, NX array[*Transition]*State) bool =
+//@     (forall q *State, i int :: {TR[q][i]} q != nil && 0 <= i && i < len(TR[q]) ==> TR[q][i] != nil) &&
+//@     (forall t *Transition :: {NX[t]} t != nil ==> NX[t] != nil)
+//@ func removeTransitionAt
+//@   requires idx: 0 <= idx && idx < len(arr)
+//@   ensures removed: len(result) == len(arr) - 1 &&
+//@       (forall j int :: {result[j]} 0 <= j && j < len(result) ==> result[j] == (j < idx ? arr[j] : arr[j+1]))
+//@ func (*State).has
+//@   requires recv: s != nil && tr != nil
+//@   requires links: linksWF(fieldHeap(s.Transitions), fieldHeap(tr.Next))
+//@ func (*State).simplifySelf
+//@   requires recv: s != nil && expanded != nil
+//@   requires links: linksWF(fieldHeap(s.Transitions), fieldHeap(s.Transitions[0].Next))
+//@   ensures none-left: !result ==> s.Transitions == old(s.Transitions) &&
+//@       (forall i int :: {s.Transitions[i]} 0 <= i && i < len(s.Transitions) ==> !isType(s.Transitions[i].Matcher, "matcher.shortcut"))
+//@   ensures links: linksWF(fieldHeap(s.Transitions), fieldHeap(s.Transitions[0].Next))
+//@   ensures frame: forall q *State :: q != s ==> q.Transitions == old(q.Transitions) && q.Terminal == old(q.Terminal)
+//@   loop 1 invariant scanned: s.Transitions == old(s.Transitions) &&
+//@       (forall i int :: {s.Transitions[i]} 0 <= i && i < $k ==> !isType(s.Transitions[i].Matcher, "matcher.shortcut"))
+//@   loop 2 invariant links: linksWF(fieldHeap(s.Transitions), fieldHeap(s.Transitions[0].Next))
+//@   loop 2 invariant frame: forall q *State :: q != s ==> q.Transitions == old(q.Transitions) && q.Terminal == old(q.Terminal)
+// simplify: when it returns (and s had not been visited before), its own state has no shortcut left; termination is not claimed
+//@ func simplify
+//@   requires recv: s != nil && start != nil && visited != nil
+//@   requires links: linksWF(fieldHeap(s.Transitions), fieldHeap(s.Transitions[0].Next))
+//@   ensures links: linksWF(fieldHeap(s.Transitions), fieldHeap(s.Transitions[0].Next))
+//@   ensures none-left: !old(visited[s]) ==>
+//@       (forall i int :: {s.Transitions[i]} 0 <= i && i < len(s.Transitions) ==> !isType(s.Transitions[i].Matcher, "matcher.shortcut"))
+//@   loop 1 invariant links: linksWF(fieldHeap(s.Transitions), fieldHeap(s.Transitions[0].Next))
+//@   loop 2 invariant links: linksWF(fieldHeap(s.Transitions), fieldHeap(s.Transitions[0].Next)) && expanded != nil
